@@ -53,6 +53,28 @@ CLAIMS['C11'] = dict(
     note='Trusted: CPython ast; sa/refmodel.py (transcription of ARM ARM B1.9 entry pseudocode); sa/bitdom.py. Mock '
          'predicates (is_external_abort, ...) are free atoms.')
 
+CLAIMS['C12'] = dict(
+    category='other', design_ref='DESIGN.md section 4 (C12), Appendix A.5',
+    technique='bit-vector abstract interpretation of CPSRWriteByInstr/SPSRWriteByInstr/BadMode/CoprocAccepted to exact '
+              'tables compared with a reference model by BDD equality; ordering/dominance/frame rules over the execute() '
+              'bodies of return, MSR/CPS/SETEND/MRS, hint and coprocessor opcodes',
+    text='The PSR writers are proved equal to the architecture for every value x byte mask x exception-return flag x state, '
+         'with the privilege and execution-state implications checked separately; the exception-return opcodes follow the '
+         'read-PC / restore-CPSR / branch template with write-back before the restore; MSR/CPS/SETEND/MRS/hint frames and '
+         'coprocessor gating are decided structurally. The entry-then-return round trip as a history is not decided.',
+    note='Trusted: CPython ast; sa/refmodel.py and the tables in sa/props/c12.py; effect vocabulary of sa/flow.py. '
+         'Known finding: MRS Rd,CPSR in privileged modes returns the APSR view.')
+CLAIMS['C08'] = dict(
+    category='other', design_ref='DESIGN.md section 4 (C08)',
+    technique='exact table of ITAdvance and the IT predicates by bit-vector abstract interpretation; structured walk of '
+              'execute_instruction (placement of the advance); reference wiring setflags = !InITBlock(); re-evaluated '
+              'C11-T / C12-M equalities for IT clear-on-entry and restore-on-return',
+    text='Mechanism conformance of IT blocks: advance table, predicates, advance placed exactly once after the opcode '
+         'under the in_it_block() value sampled before execution, the IT instruction\'s write, flag suppression wiring of '
+         'all 16-bit data-processing encodings, IT saved-then-cleared on every exception entry and restored only on '
+         'exception return. The trace-level statement (next 1-4 instructions conditional) is implied, not decided.',
+    note='Trusted: CPython ast; sa/refmodel.py; spec/enc_t16.json.')
+
 PENDING = 'checker not armed yet in this session (under construction); nothing is claimed for it until its rules run clean'
 
 checks = []
